@@ -19,3 +19,8 @@ open Verif.Props.C04B
 #print axioms attr_unquote_plain
 #print axioms important_preserved
 #print axioms font_pre_ok
+#print axioms import_target_ok
+#print axioms selector_sep_outside
+#print axioms selector_reparses
+#print axioms font_ok_partial
+#print axioms font_ok_counterexample
